@@ -164,6 +164,14 @@ Definition STARTPOS_FEN : str :=   (* "rnbqkbnr/pppppppp/8/8/8/8/PPPPPPPP/RNBQKB
   [114;110;98;113;107;98;110;114;47;112;112;112;112;112;112;112;112;47;56;47;56;47;56;47;56;47;
    80;80;80;80;80;80;80;80;47;82;78;66;81;75;66;78;82;32;119;32;75;81;107;113;32;45;32;48;32;49].
 
+(* the last steps of set_fen: key from scratch, then validate (which computes 1 << ep before looking at its rank) *)
+Definition finish_fen (mode : bool) (p : Position) : option Position :=
+  let p := set_hash p (calculate_hash p) in
+  match (match ep p with Some e => bit_m mode e | None => Some 0 end) with
+  | None => None
+  | Some _ => match validate p with None => Some p | Some _ => None end
+  end.
+
 (* Position::set_fen on a position whose is_frc flag is `frc`; None = panic *)
 Definition set_fen_raw (mode frc : bool) (fen : str) : option Position :=
   match split_sp fen [] with
@@ -221,13 +229,7 @@ Definition set_fen_raw (mode frc : bool) (fen : str) : option Position :=
                       let p := mkPos white black (nthN pc 0 0) (nthN pc 1 0) (nthN pc 2 0) rooks (nthN pc 4 0) kings
                                  hm fm false epv (ca_uk ca) (ca_uq ca) (ca_tk ca) (ca_tq ca)
                                  (ca_f0 ca) (ca_f1 ca) (ca_f2 ca) (ca_f3 ca) 0 frc in
-                      let p := if should_flip then flip p else p in
-                      let p := set_hash p (calculate_hash p) in
-                      (* validate computes 1 << ep before looking at its rank *)
-                      match (match ep p with Some e => bit_m mode e | None => Some 0 end) with
-                      | None => None
-                      | Some _ => match validate p with None => Some p | Some _ => None end
-                      end
+                      finish_fen mode (if should_flip then flip p else p)
                     end
                   end
                 end
